@@ -22,7 +22,7 @@ func Dump(p *Program, fnKey, obl, prop, work string) {
 			fmt.Println("  note:", n)
 		}
 		for _, r := range rep.Results {
-			fmt.Printf("  %-12s %-8s %-10s %6.2fs %s  -- %s\n", r.Status, r.Res.Status, r.Res.Solver, r.Res.Time, r.Obl.Name, r.Obl.Src)
+			fmt.Printf("  %-12s %-8s %-10s %6.2fs %s  -- %s @%s\n", r.Status, r.Res.Status, r.Res.Solver, r.Res.Time, r.Obl.Name, r.Obl.Src, p.posString(r.Obl))
 			if obl != "" && strings.Contains(r.Obl.Name, obl) {
 				fmt.Println(r.Res.File)
 				if data, err := os.ReadFile(r.Res.File); err == nil {
